@@ -311,9 +311,14 @@ namespace occa {
               while (parentSmnt) {
                 const int sType = parentSmnt->type();
 
-                // Break/continue is for a non-okl while/switch statement
-                if (sType & (statementType::while_ |
-                             statementType::switch_)) {
+                // Break/continue is for a non-okl while statement
+                if (sType & statementType::while_) {
+                  return false;
+                }
+                // A switch statement only captures break: continue belongs
+                // to the loop around the switch
+                if ((sType & statementType::switch_)
+                    && (smnt->type() & statementType::break_)) {
                   return false;
                 }
 
